@@ -928,7 +928,11 @@ class EClass(EClassifier):
             self._update_supertypes()
             if notif.kind in (Kind.REMOVE, Kind.REMOVE_MANY):
                 self._drop_stale_holders()
-        elif notif.kind in (Kind.REMOVE, Kind.REMOVE_MANY):
+        elif notif.kind in (Kind.REMOVE, Kind.REMOVE_MANY) \
+                and notif.feature in (EClass.eStructuralFeatures,
+                                      EClass.eOperations):
+            # (what leaves another list of the class — an annotation, a type
+            # parameter, a generic supertype — has no attribute on the class)
             removed = [notif.old] if notif.kind is Kind.REMOVE else notif.old
             for feature in removed:
                 name = (feature.normalized_name()
